@@ -1046,12 +1046,14 @@ pub fn run(run: &mut Run) {
     if !io_fired.is_empty() {
         run.tape.event(format!("io fired: {}", io_fired.iter().cloned().collect::<Vec<_>>().join(" ")));
     }
+    // stderr is recorded without its digits: a panicking child prints its OS thread id
+    // (`thread 'main' (4520) panicked`), whose *length* differs from process to process
     run.tape.event(format!(
-        "child: exit={:?} signal={:?} stdout={}B stderr={}B",
+        "child: exit={:?} signal={:?} stdout={}B stderr={}B (digits not counted)",
         child.code,
         child.signal,
         child.stdout.len(),
-        child.stderr.len()
+        child.stderr.iter().filter(|b| !b.is_ascii_digit()).count()
     ));
     if child.signal.is_some() || child.timed_out {
         // a crash of the pipeline on these bytes is C14's subject, not a CLI/library divergence
